@@ -714,7 +714,14 @@ HStep(e, h2) ==
     /\ Chk(e, "C12", "encoding_does_not_mutate", SnapAgrees(h2, e))
     /\ st' = [st EXCEPT !.heap = h2]
 
-HReset(e) == st' = [st EXCEPT !.heap = HeapInit]
+\* (once the code has produced an object the specification says cannot exist -- a frame decoded from bytes that are no frame --
+\* the two object worlds are out of step: reported once, then the session is void until the next reset)
+HReset(e) == st' = [st EXCEPT !.heap = HeapInit, !.hvoid = FALSE]
+HGuard(e, act) == IF st.hvoid THEN UNCHANGED st
+                  ELSE IF ("i" \in DOMAIN e /\ e.a \in {"HMutate", "HSetAttr", "HSetSlot", "HMarshal"} /\ e.i \notin DOMAIN st.heap.heap
+                           /\ ~(e.a = "HMutate" /\ e.via # "obj"))
+                       THEN Chk(e, "C16", "object_world_in_step", FALSE) /\ st' = [st EXCEPT !.hvoid = TRUE]
+                       ELSE act
 HNewDict(e) == HStep(e, HNewUser(H, "table", e.v))
 HNewProps(e) == HStep(e, HNewUser(H, "props", e.v))
 HConstruct(e) ==
@@ -737,7 +744,8 @@ HUnmarshal(e) ==
     /\ Chk(e, "C16", "result_depends_only_on_the_bytes",
            IF r.k = "frame" THEN o.r = "ok" /\ o.n = r.n /\ o.ch = r.ch /\ SameDecoded(r.f, o.f)
            ELSE IF r.k \in {"incomplete", "malformed"} THEN o.r = "exc" ELSE TRUE)
-    /\ HStep(e, IF r.k = "frame" /\ o.r = "ok" THEN HDecoded(H, r.f) ELSE H)
+    /\ IF r.k # "frame" /\ o.r = "ok" THEN st' = [st EXCEPT !.hvoid = TRUE]
+       ELSE HStep(e, IF r.k = "frame" /\ o.r = "ok" THEN HDecoded(H, r.f) ELSE H)
 HToggle(e) == st' = [st EXCEPT !.legacy = ToggleArg(e.arg)]
 
 Toggle(e) == st' = [st EXCEPT !.legacy = ToggleArg(e.arg)]
@@ -785,14 +793,14 @@ Step == /\ l <= Len(Events)
              [] e.a = "RpcRecv"     -> RpcRecv(e)
              [] e.a = "SchedulerStats" -> UNCHANGED st
              [] e.a = "HReset"      -> HReset(e)
-             [] e.a = "HNewDict"    -> HNewDict(e)
-             [] e.a = "HNewProps"   -> HNewProps(e)
-             [] e.a = "HConstruct"  -> HConstruct(e)
-             [] e.a = "HMutate"     -> HMutate(e)
-             [] e.a = "HSetAttr"    -> HSetAttr(e)
-             [] e.a = "HSetSlot"    -> HSetSlot(e)
-             [] e.a = "HMarshal"    -> HMarshal(e)
-             [] e.a = "HUnmarshal"  -> HUnmarshal(e)
+             [] e.a = "HNewDict" -> HGuard(e, HNewDict(e))
+             [] e.a = "HNewProps" -> HGuard(e, HNewProps(e))
+             [] e.a = "HConstruct" -> HGuard(e, HConstruct(e))
+             [] e.a = "HMutate" -> HGuard(e, HMutate(e))
+             [] e.a = "HSetAttr" -> HGuard(e, HSetAttr(e))
+             [] e.a = "HSetSlot" -> HGuard(e, HSetSlot(e))
+             [] e.a = "HMarshal" -> HGuard(e, HMarshal(e))
+             [] e.a = "HUnmarshal" -> HGuard(e, HUnmarshal(e))
              [] e.a = "StreamReset" -> StreamReset(e)
              [] e.a = "Send"        -> SendEv(e)
              [] e.a = "Deliver"     -> DeliverEv(e)
@@ -807,7 +815,7 @@ Step == /\ l <= Len(Events)
              [] e.a = "ConnQuiesce" -> ConnQuiesce(e)
 
 Init == /\ l = 1
-        /\ st = [legacy |-> FALSE, tz |-> "UTC", void |-> FALSE, wire |-> <<>>, buf |-> <<>>, sent |-> <<>>, got |-> 0, used |-> 0,
+        /\ st = [legacy |-> FALSE, tz |-> "UTC", void |-> FALSE, hvoid |-> FALSE, wire |-> <<>>, buf |-> <<>>, sent |-> <<>>, got |-> 0, used |-> 0,
                   heap |-> HeapInit, rpc |-> [c \in 0..7 |-> ""], conn |-> ConnInit,
                   asm |-> [c \in 0..7 |-> Idle], cdel |-> [c \in 0..7 |-> <<>>], cpub |-> [c \in 0..7 |-> <<>>]]
 Spec == Init /\ [][Step]_vars
